@@ -242,8 +242,18 @@ def ex_stmt(self, s, st):
         for k_, v_ in (self.c.complete.get("ghost_stmts") or {}).items():
             gs[k_] = list(gs.get(k_, [])) + list(v_)
     sid = self.cur_site.split("/")[-1] if self.cur_site else None
+    # ghost statements are attached by site ordinal ("after:assign#4") or, more robustly against statements being added or
+    # moved, by the text of a simple statement ("after:~shifts[class_idx] = current_shift": the unparsed statement starts with it)
+    txt_keys = [k for k in gs if "~" in k] if gs else []
+    src = None
+    if txt_keys and not isinstance(s, (ast.For, ast.While, ast.If, ast.Try, ast.With, ast.FunctionDef)):
+        src = ast.unparse(s)
     if gs and sid and f"before:{sid}" in gs:
         self.ghost_exec(gs[f"before:{sid}"], st)
+    if src is not None:
+        for k in txt_keys:
+            if k.startswith("before:~") and src.startswith(k[8:]):
+                self.ghost_exec(gs[k], st)
     mark = len(self.raise_buf)
     outs = list(m(s, st))
     raised = self.raise_buf[mark:]
@@ -252,6 +262,12 @@ def ex_stmt(self, s, st):
         for o in outs:
             if o.kind == "normal":
                 self.ghost_exec(gs[f"after:{sid}"], o.state)
+    if src is not None:
+        for k in txt_keys:
+            if k.startswith("after:~") and src.startswith(k[7:]):
+                for o in outs:
+                    if o.kind == "normal":
+                        self.ghost_exec(gs[k], o.state)
     return outs + raised
 
 
